@@ -197,7 +197,7 @@ fn make_point(line: &Line, dim: usize, order: Option<&[usize]>, rng: &mut impl R
                 _ => rng.gen_range(0.02..0.98),
             };
         } else if i == 2 * e - 2 {
-            x[i] = match extreme { 2 => [1e-9, 0.5, 1.0 - 1e-9, 0.999][rng.gen_range(0..4)], _ => rng.gen_range(0.01..0.99) };
+            x[i] = match extreme { 2 => [1e-9, 0.5, 1.0 - 1e-9, 0.999, 0.0, f64::EPSILON / 2.0, 2f64.powi(-60), 1.0 - f64::EPSILON / 2.0, 1.0 - f64::EPSILON][rng.gen_range(0..9)], _ => rng.gen_range(0.01..0.99) };
         } else {
             x[i] = match extreme {
                 2 => [f64::MIN_POSITIVE, 1e-300, 1e-9, 0.5, 1.0 - f64::EPSILON / 2.0, 0.25, 0.75][rng.gen_range(0..7)],
@@ -255,6 +255,13 @@ fn check_point(cx: &mut Ctx, s: &dyn DynSampler, cached_spec: Option<f64>, ri: u
             return None;
         }
         Outcome::Ok => {}
+        Outcome::ErrGamma => {
+            // the Gamma draw failed: then the public quantile of (dod, designated coordinate) must be an error too
+            if momtrop::gamma::inverse_gamma_lr(&line.dod, &x[2 * line.e - 2], 50, &5.0).is_ok() {
+                cx.viol("C12", "sample returned GammaError although inverse_gamma_lr(dod, x[2E-2]) is a value".into(), ri, x, json!({}));
+            }
+            return None;
+        }
         _ => { return None; }
     }
     let o = out.obs.as_ref().unwrap();
@@ -611,7 +618,7 @@ pub fn run(lines: &[Value], opts: &SampleOpts) -> Summary {
         for k in 0..opts.points_per_line { pts.push(make_point(&line, dim, None, &mut rng, (k % 3) as u32)); }
         if line.e >= 2 && line.l >= 2 {
             use rand::seq::SliceRandom;
-            for r in [7u32, 9, 10, 11] {
+            for r in [7u32, 9, 10, 11, 12, 13] {
                 let mut o: Vec<usize> = (0..line.e).collect(); o.shuffle(&mut rng);
                 pts.push(make_point(&line, dim, Some(&o), &mut rng, 100 + r));
                 sm.count("spread_points");
